@@ -50,3 +50,4 @@ def run(ctx):
     from . import round3 as R3
     R3.r01_10_tree_untouched(ctx, 'R18.8')
     R3.r18_9_process_node_writes(ctx)
+    R3.r18_10_reference_owned_node(ctx)
